@@ -15,6 +15,15 @@ select (`a.b .c` is ONE select with whitespace inside its attrpath) —, one to 
 front of the first `.` (mostly empty, sometimes a line break and indentation; with probability
 `p_sel_cmt` per select it holds comments too) and, one time in ten, whitespace between that `.` and
 the attrpath. A select binds tighter than application, so it is never parenthesised.
+With probability `p_lam` an expression position of depth > 0 holds a lambda `NAME g1 : g2 BODY`, NAME one
+of a few identifiers (no keyword). Like `with` / `assert` it reaches as far right as it can, so it is
+bare at top level, as a binding value, inside parentheses and as the body of `with` / `assert` / a lambda
+(`x: y: …` comes about that way) and parenthesised elsewhere (list element, function / argument of an
+application, base of a select, head of `with` / `assert`). g1 is mostly empty, now and then a blank or a
+line break with indentation, and holds comments with probability `p_lam_cmt` per lambda; g2 is mostly one
+blank, sometimes line breaks (1–3) with indentation, sometimes empty — but only in front of `(` `[` `{`
+`"`: `x:y`, `x:1`, `x:./p`, `x:/*c*/` … are ONE uri token — and holds comments only with probability
+`p_lam_body_cmt` (0 by default: the model does not cover those).
 Never starts with whitespace.
 Small by construction (py-tree-sitter 0.26 crashes beyond ~250 lines)."""
 from __future__ import annotations
@@ -31,6 +40,9 @@ FUNCS = ["f", "foo", "x'", "b-c", "_u", "import"]
 SEL_BASES = ["a", "foo", "pkgs", "lib", "x'", "b-c", "_u", "self", '"s"', '"x${y}z"']
 SEL_SEGS = ["a", "b", "foo", "lib", "x'", "c-d", "_u", "a", "b", "foo", "lib", '"q r"', '"é"']   # no keyword, no `or`
 SEL_GAPS = [""] * 9 + [" ", "\n", "\n  ", "\n    "]
+LAM_NAMES = ["x", "x", "y", "self", "super", "args", "final", "prev", "_"]   # no keyword
+LAM_G1 = [""] * 14 + [" ", " ", " ", " ", "  ", "\n  "]
+LAM_G2 = [" "] * 12 + ["", "", "", "  ", "\n", "\n  ", "\n  ", "\n    ", "\n\n  ", "\n\n\n  "]
 WS = (" ", "\t", "\n")
 # tree-sitter-nix quirk: in the trivia run that follows a `./…` / `../…` / `~/…` path, two block comments
 # with nothing between them (`*//*`) are a syntax error; such documents are not generated
@@ -39,15 +51,21 @@ PATH_QUIRK = re.compile(r"(?:nix|~/h)(?:\s|#[^\n]*\n|/\*.*?\*/)*?/\*.*?\*//\*")
 
 class FragGen:
     def __init__(self, rng: random.Random, p_cmt: float, p_inner: float, p_kw: float = 0.25, p_kw_cmt: float = 0.4,
-                 p_sel: float = 0.22, p_sel_cmt: float = 0.15):
+                 p_sel: float = 0.22, p_sel_cmt: float = 0.15, p_lam: float = 0.13, p_lam_cmt: float = 0.1,
+                 p_lam_body_cmt: float = 0.0):
         """`p_kw`: probability that a `with` / `assert` node may have comments in its three inner gaps;
         `p_kw_cmt`: comment density (as for `gap`) in the inner gaps of such a node;
         `p_sel`: probability that a leaf position (or the function of an application) holds a select;
         `p_sel_cmt`: probability that a select has comments between its base and the `.`.
-        `self.sels` counts the selects written (what the CST of the text must hold as `D` nodes)"""
+        `p_lam`: probability that an expression position of depth > 0 holds a lambda;
+        `p_lam_cmt`: probability that a lambda has comments between its name and the `:`;
+        `p_lam_body_cmt`: probability that a lambda has comments between the `:` and its body.
+        `self.sels` counts the selects written (what the CST of the text must hold as `D` / `O` nodes),
+        `self.lams` the lambdas (`F1` nodes)"""
         self.rng, self.p_cmt, self.p_inner, self.n = rng, p_cmt, p_inner, 0
         self.p_kw, self.p_kw_cmt = p_kw, p_kw_cmt
         self.p_sel, self.p_sel_cmt, self.sels = p_sel, p_sel_cmt, 0
+        self.p_lam, self.p_lam_cmt, self.p_lam_body_cmt, self.lams = p_lam, p_lam_cmt, p_lam_body_cmt, 0
 
     def comment(self):
         self.n += 1
@@ -121,6 +139,33 @@ class FragGen:
             g += " "
         return s + g + b
 
+    def _cmt_run(self, first_gaps, p_more: float = 0.3) -> str:
+        """a gap that holds at least one comment; ends in whitespace or `*/`"""
+        s = self.rng.choice(first_gaps)
+        while True:
+            c, line = self.comment()
+            s += c + (("\n" + self.rng.choice(["", " ", "  ", "\n", "\n  "])) if line else self.rng.choice(GAPS))
+            if self.rng.random() >= p_more:
+                return s
+
+    def lam(self, depth: int) -> str:
+        """NAME g1 `:` g2 BODY; the body extends to the right as far as it can, so it may be a bare
+        application, `with` / `assert` or another lambda"""
+        self.lams += 1
+        s = self.rng.choice(LAM_NAMES)
+        s += self._cmt_run(GAPS) if self.rng.random() < self.p_lam_cmt else self.rng.choice(LAM_G1)
+        s += ":"
+        b = self.expr(depth - 1, "body")
+        if self.rng.random() < self.p_lam_body_cmt:
+            g = self._cmt_run(SEPS)   # `x:/*c*/` and `x:#` … : whitespace first
+            if g.endswith("*/") and b[0] in "./~<":
+                g += " "
+        else:
+            g = self.rng.choice(LAM_G2)
+            if g == "" and b[0] not in '([{"':
+                g = " "   # `x:y`, `x:1`, `x:./p.nix`, `x:rec{}` … would be one uri token
+        return s + g + b
+
     def select(self, depth: int) -> str:
         """BASE g1 `.` gd a₁.a₂.….aₙ; BASE a single token, or (depth > 0) a parenthesis / list / set"""
         self.sels += 1
@@ -128,7 +173,7 @@ class FragGen:
         if depth <= 0 or r < 0.65:
             s = self.rng.choice(SEL_BASES)
         elif r < 0.85:
-            s = self.paren(depth)
+            s = self.paren(depth)   # `(x: x).a`: a lambda as the base only inside parentheses
         elif r < 0.92:
             s = self.lst(depth)
         else:
@@ -174,6 +219,10 @@ class FragGen:
         return self.rng.choice(LEAVES)
 
     def expr(self, depth: int, ctx: str = "top") -> str:
+        if depth > 0 and self.rng.random() < self.p_lam:
+            # a lambda reaches as far right as it can, like `with` / `assert`: bare only where nothing may
+            # follow it but a closing token
+            return self.lam(depth) if ctx in ("top", "value", "paren", "body") else "(" + self.lam(depth) + ")"
         r = self.rng.random()
         if depth <= 0 or r < 0.2:
             return self.leaf(depth)
@@ -242,18 +291,25 @@ def programs(rng: random.Random, n: int):
     between the tokens of bindings; a quarter of the `with` / `assert` nodes (none / a quarter / half,
     by document) may have comments in their inner gaps; selects may have comments in front of their `.`
     with probability 0 / 0.15 / 0.3 (by document)"""
-    for t, _ in programs_counted(rng, n):
+    for t, _, _ in programs_tallied(rng, n):
         yield t
 
 
 def programs_counted(rng: random.Random, n: int):
     """as `programs`, yielding (text, number of selects written)"""
+    for t, sels, _ in programs_tallied(rng, n):
+        yield t, sels
+
+
+def programs_tallied(rng: random.Random, n: int):
+    """as `programs`, yielding (text, number of selects written, number of lambdas written); lambdas
+    may have comments in front of their `:` with probability 0 / 0.1 / 0.2 (by document)"""
     made = 0
     while made < n:
         g = FragGen(rng, rng.choice([0.0, 0.2, 0.5]), rng.choice([0.0, 0.0, 0.3]), rng.choice([0.0, 0.25, 0.5]),
-                    p_sel_cmt=rng.choice([0.0, 0.15, 0.3]))
+                    p_sel_cmt=rng.choice([0.0, 0.15, 0.3]), p_lam_cmt=rng.choice([0.0, 0.1, 0.2]))
         t = g.file(rng.randint(0, 4))
         if t.count("\n") > 150 or t[:1] in WS or PATH_QUIRK.search(t):
             continue
         made += 1
-        yield t, g.sels
+        yield t, g.sels, g.lams
